@@ -454,6 +454,9 @@ example : g2.tombed "BBBBBB" = false âˆ§ g2.has "BBBBBB" = false âˆ§ "BBBBBB" âˆ
 example : (runCmd lit10 { agent := "ag-3", times := [1200] } (.claim "AAAAAA")).log = lit10 âˆ§
     (runCmd lit10 { agent := "ag-3", times := [1200] } (.claim "AAAAAA")).write = none :=
   C10_failure_changes_nothing lit10 _ _ (.pruned "AAAAAA") (by decide)
+example (ets : Event â†’ String) (f : Storage.Bytes) :
+    Codec.fileAfter ets f (runCmd lit10 { agent := "ag-3", times := [1200] } (.claim "AAAAAA")).write = f :=
+  C10_failure_leaves_every_byte lit10 _ _ (.pruned "AAAAAA") ets f (by decide)
 example : secLinks g11 false [("EEEEEE", "BBBBBB")] = .error .depKinds :=
   C10_sequence_all_or_nothing g11 false _ _ (by decide)
 
